@@ -394,4 +394,38 @@ func init() {
 			"decoding of the emitted attribute value is linked to the pre-escape value by C10's round trip (argument)"},
 		Intrinsics: []string{"strings.Title (concrete)", "safehtmlutil.Indirect / Stringify", "map lookups with symbolic keys"},
 	})
+
+	reg(&Prop{
+		ID:    "C01",
+		Title: "Template markup structure is never altered by untrusted data (unit lemmas)",
+		Harnesses: []HarnessSpec{
+			{Pkg: "template", Name: "vHarness_C01_text", Quick: []ParamRange{{"pre", 0, 16}, {"n", 0, 4}}, Thorough: []ParamRange{{"pre", 0, 16}, {"n", 0, 6}}, Reach: []string{"accepted", "rejected", "stable"},
+				Filter: func(p map[string]int) bool { return p["n"] <= 5 || p["pre"] == 0 || p["pre"] == 4 || p["pre"] == 6 || p["pre"] == 12 || p["pre"] == 15 },
+				Desc: "L1+L2: one ASCII text node from 17 (context, tokenizer state) pre-states through the real escapeText: the rewritten text has the author's tags/attributes and no comment; the resulting context agrees with the tokenizer state of the output"},
+			{Pkg: "template", Name: "vHarness_C01_text", Quick: []ParamRange{{"pre", 0, 0}, {"n", 5, 5}}, Thorough: []ParamRange{{"pre", 17, 18}, {"n", 0, 9}},
+				Desc: "longer text from the data state (reaches <xmp>); script-data escaped pre-states"},
+			{Pkg: "template", Name: "vHarness_C01_text", Quick: []ParamRange{{"pre", 17, 17}, {"n", 9, 9}}, Thorough: []ParamRange{{"pre", 4, 4}, {"n", 7, 9}},
+				Desc: "script double-escaped pre-state with a 9-byte text (reaches </script>)"},
+			{Pkg: "template", Name: "vHarness_C01_action", Quick: []ParamRange{{"pre", 0, 18}, {"n", 0, 3}}, Thorough: []ParamRange{{"pre", 0, 18}, {"n", 0, 4}}, Reach: []string{"accepted", "rejected"},
+				Desc: "L3: where sanitizerForContext(nudge(c)) accepts an action the tokenizer is in a text or quoted-value state and the sanitized data leaves its state and counters unchanged"},
+			{Pkg: "template", Name: "vHarness_C01_join", Quick: []ParamRange{{"a", 0, 16}, {"b", 0, 16}}, Reach: []string{"joined", "rejected"},
+				Desc: "L4: join(a, b) not an error => the joined context agrees with the tokenizer state of both branches"},
+		},
+		Probes: []ProbeSpec{
+			{Pkg: "template", Name: "vProbe_C01_escape", NArgs: 2, Alphabet: "<>/!-=\"' abdivscrptxm\t\n\f&;", MaxLen: 12, N: 3000, TestDir: "template",
+				Extra: []string{"<a href=\"x\">", "<!-- c -->", "</script>", "<script>", "</SCRIPT\f>", "<textarea>", "a < b", "<!DOCTYPE html>", "<br/>", "<a b=c d='e'>", "x-->y", "<xmp>"}},
+			{Pkg: "template", Name: "vProbe_C01_tok", NArgs: 1, Alphabet: "<>/!-=\"' abdivscrptxm\t\n\f", MaxLen: 12, N: 300},
+		},
+		Functions: []string{"template.(*escaper).escapeText", "template.contextAfterText", "template.tText", "template.tTag", "template.tAttrName", "template.tAfterName", "template.tBeforeValue", "template.tHTMLCmt", "template.tSpecialTagEnd",
+			"template.indexTagEnd", "template.tAttr", "template.tError", "template.eatAttrName", "template.eatTagName", "template.eatWhiteSpace", "template.isJsTemplateBalanced / consumeJsTemplate / consumeJsTemplateExpr", "template.nudge", "template.join", "template.joinNames",
+			"template.sanitizerForContext and the run-time sanitizers", "template.editTextNode", "safehtml.HTMLEscaped"},
+		Bounds: map[string]string{
+			"quick":    "text nodes: every ASCII string of length 0..4 from each of 17 pre-states (0..5 from the data state; 9 bytes from the script double-escaped state); action data: every byte string of length 0..3 in 19 pre-states; join: all 289 pairs of pre-states",
+			"thorough": "text nodes 0..5 from every pre-state, 0..6 from six of them, 0..9 from the script states; data 0..4",
+		},
+		Outside: []string{"text/template's lexer, parser and executor; the composition of the lemmas over if/range/with/template (escapeBranch, escapeTree): argued in DESIGN.md, not mechanised",
+			"text nodes that end in the middle of a token (transient tokenizer states at node boundaries are skipped by L2)", "non-ASCII bytes in static text", "foreign (SVG/MathML) content, Delims, CSP-compatible mode",
+			"violations are lemma violations of the units, replayed natively on the units; end-to-end templates for the recorded findings are in /verif/findings"},
+		Intrinsics: []string{"bytes.Index/IndexByte/IndexAny/Equal/EqualFold/HasPrefix/ToUpper/Contains, bytes.Buffer", "strings.ToLower", "template.errorf: error message not built", "html.UnescapeString (stdlib SSA)"},
+	})
 }
